@@ -72,7 +72,7 @@ for ls in range(0, 5):
     for ll in range(0, 5):
         add("b.internal-separator-LS%d-LL%d" % (ls, ll), "C16/separator.c", real=SEP_REAL,
             defs={"VP_MODE": 2, "VP_LS": ls, "VP_MAXL": ll}, unwind=14,
-            tier="quick" if (ls == 0 or ll == 0 or (ls, ll) in ((1, 1), (2, 1), (2, 2))) and ls <= 3 and ll <= 3 else "thorough",
+            tier="quick" if (ls == 0 or ll == 0 or (ls, ll) in ((1, 1), (2, 1))) and ls <= 3 and ll <= 3 else "thorough",
             restrict_fp=[FP % ("vp_check_isep", 1, "ldb_ikc_compare"), FP % ("vp_check_isep", 2, "ldb_ikc_shortest_separator"),
                          FP % ("ldb_ikc_compare", 1, "slice_compare"),
                          FP % ("ldb_ikc_shortest_separator", 1, "shortest_separator"),
